@@ -52,6 +52,18 @@ type family struct {
 	structs []string // named struct types
 	pool    []string // field and method names to look up
 	digest  string
+	sfields map[string][]fieldEnt // struct -> its fields in declaration order
+	smeths  map[string][]methEnt  // named type -> its methods in declaration order
+}
+
+type fieldEnt struct {
+	src, name string
+	emb       string // "" (plain field) or the embedded struct's name
+	ptr       bool   // embedded by pointer
+}
+type methEnt struct {
+	name string
+	ptr  bool
 }
 
 type famGen struct {
@@ -82,15 +94,14 @@ func (g *famGen) decl(name, under string) {
 func (g *famGen) structDecl(name string, emb []string, nplain int) {
 	r := g.r
 	used := map[string]bool{}
-	var fs, names []string
+	var ents []fieldEnt
 	for _, e := range emb {
 		base := strings.TrimPrefix(e, "*")
 		if used[base] {
 			continue
 		}
 		used[base] = true
-		fs = append(fs, e)
-		names = append(names, base)
+		ents = append(ents, fieldEnt{src: e, name: base, emb: base, ptr: e != base})
 	}
 	for i := 0; i < nplain; i++ {
 		fn := fieldPool[r.Intn(len(fieldPool))]
@@ -102,20 +113,24 @@ func (g *famGen) structDecl(name string, emb []string, nplain int) {
 		if r.Chance(1, 6) {
 			f += fmt.Sprintf(" `k:\"%s\"`", fn)
 		}
-		fs = append(fs, f)
-		names = append(names, fn)
+		ents = append(ents, fieldEnt{src: f, name: fn})
 	}
 	// a field that only this struct has: distinct struct types stay non-identical unless declared as twins
 	u := "U" + name
-	fs = append(fs, u+" int8")
-	names = append(names, u)
-	for i := len(fs) - 1; i > 0; i-- {
+	ents = append(ents, fieldEnt{src: u + " int8", name: u})
+	for i := len(ents) - 1; i > 0; i-- {
 		j := r.Intn(i + 1)
-		fs[i], fs[j] = fs[j], fs[i]
+		ents[i], ents[j] = ents[j], ents[i]
+	}
+	var fs, names []string
+	for _, e := range ents {
+		fs = append(fs, e.src)
+		names = append(names, e.name)
 	}
 	g.decl(name, "struct { "+strings.Join(fs, "; ")+" }")
 	g.isStruc[name] = true
 	g.fields[name] = names
+	g.f.sfields[name] = ents
 	g.f.structs = append(g.f.structs, name)
 }
 
@@ -146,10 +161,11 @@ func (g *famGen) method(t string) {
 		recv = "*" + t
 	}
 	g.f.Methods = append(g.f.Methods, fmt.Sprintf("func (r %s) %s() int { return %d }", recv, name, len(g.f.Methods)))
+	g.f.smeths[t] = append(g.f.smeths[t], methEnt{name, recv != t})
 }
 
 func genFamily(r *vh.Rng, name string) *family {
-	g := &famGen{r: r, f: &family{Name: name}, under: map[string]string{}, isStruc: map[string]bool{}, fields: map[string][]string{}}
+	g := &famGen{r: r, f: &family{Name: name, sfields: map[string][]fieldEnt{}, smeths: map[string][]methEnt{}}, under: map[string]string{}, isStruc: map[string]bool{}, fields: map[string][]string{}}
 	p := name + "_"
 	// ---- plain hierarchy: each struct embeds 0..3 earlier structs
 	ns := 3 + r.Intn(4)
@@ -214,6 +230,7 @@ func genFamily(r *vh.Rng, name string) *family {
 		g.decl(b, u)
 		g.isStruc[b] = true
 		g.fields[b] = g.fields[a]
+		g.f.sfields[b] = g.f.sfields[a]
 		g.f.structs = append(g.f.structs, b)
 		twins = append(twins, [2]string{a, b})
 	}
@@ -369,6 +386,8 @@ func (h *H) partE(rng *vh.Rng) {
 			}
 		}
 	}
+	h.replayKnownTwin(status)
+	h.caseIdx = 100000
 	var ir *fast.Interp
 	knownPairs := 0
 	for i := 0; i < nF; i++ {
@@ -412,12 +431,86 @@ func (h *H) partE(rng *vh.Rng) {
 		h.familyLookups(f, pkg, ts)
 		knownPairs += h.familyPredicates(f, pkg, ts, status)
 	}
+	// the observed lookups, for the lookup model (shards of 5 families)
+	for i := 0; i*5 < len(h.lookupCases); i++ {
+		hi := (i + 1) * 5
+		if hi > len(h.lookupCases) {
+			hi = len(h.lookupCases)
+		}
+		txt := "From Coq Require Import List NArith ZArith Bool.\nFrom Verif Require Import C09.Model.\nImport ListNotations.\nOpen Scope Z_scope.\n" +
+			"Definition cases : list case := [\n " + strings.Join(h.lookupCases[i*5:hi], ";\n ") + "\n].\n" +
+			"Definition verif_mismatches : list Z := Eval vm_compute in mismatches cases.\nPrint verif_mismatches.\n"
+		if err := os.WriteFile(h.a.Path(fmt.Sprintf("cases_lookup_%03d.v", i)), []byte(txt), 0o644); err != nil {
+			panic(err)
+		}
+	}
+	h.rep.Extra["partE_lookup_model_cases"] = len(h.lookupCases)
 	h.rep.Extra["partE_known_class_pairs"] = knownPairs
 	h.rep.Extra["partE_known_class_status"] = status
 }
 
-func (h *H) familyLookups(f *family, pkg *gotypes.Package, ts map[string]xr.Type) {
+// coqPath: a StructField.Index / Method.FieldIndex as a Coq term
+func coqPath(p []int) string {
+	if len(p) == 0 {
+		return "(@nil Z)"
+	}
+	var ss []string
+	for _, x := range p {
+		ss = append(ss, fmt.Sprint(x))
+	}
+	return "[" + strings.Join(ss, ";") + "]%Z"
+}
+
+// lookupEnv: the struct types of the family as an environment of Verif.C09.Model (type id = position in f.structs;
+// names are numbered by nid)
+func (f *family) lookupEnv(nid func(string) int) string {
+	idx := map[string]int{}
+	for i, s := range f.structs {
+		idx[s] = i
+	}
+	var ts []string
 	for _, s := range f.structs {
+		var fs []string
+		for _, e := range f.sfields[s] {
+			ft := "FInt"
+			if e.emb != "" {
+				if e.ptr {
+					ft = fmt.Sprintf("(FPtr %d)", idx[e.emb])
+				} else {
+					ft = fmt.Sprintf("(FVal %d)", idx[e.emb])
+				}
+			}
+			fs = append(fs, fmt.Sprintf("mkField %d%%N %s", nid(e.name), ft))
+		}
+		var ms []string
+		for _, m := range f.smeths[s] {
+			ms = append(ms, fmt.Sprintf("(%d%%N, %s)", nid(m.name), vh.CoqBool(m.ptr)))
+		}
+		ts = append(ts, fmt.Sprintf("mkT %d%%N (KStruct %s) %s", nid(s), vh.CoqList(fs, "field"), vh.CoqList(ms, "(N * bool)")))
+	}
+	return vh.CoqList(ts, "tdef")
+}
+
+func (h *H) familyLookups(f *family, pkg *gotypes.Package, ts map[string]xr.Type) {
+	ids := map[string]int{}
+	nid := func(n string) int {
+		if v, ok := ids[n]; ok {
+			return v
+		}
+		ids[n] = len(ids)
+		return ids[n]
+	}
+	var cops, couts []string
+	complete := true
+	defer func() {
+		// correspondence with the lookup model (coq/C09/Model.v): the observed answers of this family
+		if complete {
+			h.lookupCases = append(h.lookupCases, fmt.Sprintf("mkCase %d %s\n  %s\n  %s", h.caseIdx, f.lookupEnv(nid), vh.CoqList(cops, "op"), vh.CoqList(couts, "out")))
+			h.rep.CaseInput(h.caseIdx, map[string]interface{}{"part": "E", "family": f})
+			h.caseIdx++
+		}
+	}()
+	for k, s := range f.structs {
 		st := stdType(pkg, s)
 		t := ts[s]
 		for _, name := range f.pool {
@@ -446,8 +539,11 @@ func (h *H) familyLookups(f *family, pkg *gotypes.Package, ts map[string]xr.Type
 				var fc, mc int
 				if e := vh.Catch(func() { fld, fc = t.FieldByName(name, "main"); mtd, mc = t.MethodByName(name, "main") }); e != nil {
 					h.efail(f, "FieldByName/MethodByName panicked", subject, fmt.Sprint(e), nil)
+					complete = false
 					break
 				}
+				cops = append(cops, fmt.Sprintf("OLookF %d %d%%N", k, nid(name)), fmt.Sprintf("OLookM %d %d%%N", k, nid(name)))
+				couts = append(couts, fmt.Sprintf("RF %d %s", fc, coqPath(fld.Index)), fmt.Sprintf("RM %d %s %s", mc, coqPath(mtd.FieldIndex), vh.CoqZ(int64(mtd.Index))))
 				got := fmt.Sprintf("fields=%d %v methods=%d %v rep=%d", fc, fld.Index, mc, mtd.FieldIndex, rep)
 				want := fmt.Sprintf("%s %v", cls, index)
 				bad := false
@@ -540,14 +636,33 @@ func (h *H) familyPredicates(f *family, pkg *gotypes.Package, ts map[string]xr.T
 	return known
 }
 
-// knownTwin: a pair of the known class.  Reported (once) under the key of the proposed finding when that key is
-// registered in known_findings.json; until then only counted (extra.partE_known_class_pairs).
+// knownTwin: a pair of the known class: counted only (the exact recorded input is replayed by replayKnownTwin)
 func (h *H) knownTwin(f *family, status, pred, subject string) {
 	h.rep.Dist("partE known class (reflect shortcut): " + pred)
-	if status == "" || h.nfail[knownTwinKey] > 0 {
+}
+
+// replayKnownTwin replays corpus/C29/known-twin-assignable.txt.  While it still fails it is reported under the key of
+// the finding once that key is registered in known_findings.json; until then extra.proposed_finding_reproduced says so.
+func (h *H) replayKnownTwin(status string) {
+	ir := fast.New()
+	ir.Comp.Globals.Stdout = io.Discard
+	ir.Comp.Globals.Stderr = io.Discard
+	var got [4]bool
+	compiled := false
+	e := vh.Catch(func() {
+		ir.Eval("type S1 struct{ V int }\ntype S2 struct{ V int }\ntype P1 *S1\ntype P2 *S2")
+		t := ir.Comp.TryResolveType
+		got = [4]bool{t("S1").AssignableTo(t("S2")), t("S1").IdenticalTo(t("S2")), t("P1").AssignableTo(t("P2")), t("P1").ConvertibleTo(t("P2"))}
+		compiled = vh.Catch(func() { ir.Eval("var a S1\nvar b S2 = a") }) == nil
+	})
+	still := e == nil && (got[0] || got[2] || got[3] || compiled)
+	h.rep.Extra["proposed_finding_reproduced:"+knownTwinKey] = still
+	if e != nil || got[1] {
+		h.rep.Fail(vh.Failure{Key: "partE:corpus known-twin-assignable", What: "replay of corpus/C29/known-twin-assignable.txt panicked or S1 is identical to S2", Got: fmt.Sprint(e, got)})
 		return
 	}
-	h.nfail[knownTwinKey]++
-	h.rep.Fail(vh.Failure{Key: knownTwinKey, What: "xreflect " + pred + " is true for distinct interpreted named types that share a reflect.Type (go/types: false)",
-		Input: map[string]interface{}{"family": f, "subject": subject}, Got: true, Want: false})
+	if still && status != "" {
+		h.rep.Fail(vh.Failure{Key: knownTwinKey, What: "distinct interpreted named types with identical underlying types are mutually assignable (xreflect AssignableTo/ConvertibleTo, `var b S2 = a`)",
+			Input: "corpus/C29/known-twin-assignable.txt", Got: fmt.Sprintf("S1->S2 assignable=%v, P1->P2 assignable=%v convertible=%v, `var b S2 = a` compiles=%v", got[0], got[2], got[3], compiled), Want: "false false false false"})
+	}
 }
